@@ -149,62 +149,67 @@ def run(E: Engine, rep: Report, tier: str) -> dict:
     if ccm is None or bsm is None:
         raise AnalysisError("anchor: check_channels_match / build_sequence_from_matching not found")
     # ------------------------------------------ fields compared under strict
-    compared: set[str] = set()
-    lists = {}
-    for n in ast.walk(ccm.node):
-        if isinstance(n, ast.Assign) and isinstance(n.targets[0], ast.Name) and isinstance(n.value, ast.List):
-            lists[n.targets[0].id] = [e.value for e in n.value.elts if isinstance(e, ast.Constant)]
-        if isinstance(n, ast.Call) and isinstance(n.func, ast.Attribute) and n.func.attr == "append" and isinstance(n.func.value, ast.Name) and n.func.value.id in lists and n.args and isinstance(n.args[0], ast.Constant):
-            lists[n.func.value.id].append(n.args[0].value)
-    # a conditionally compared parameter must be compared whenever it matters on EITHER device:
-    # the condition has to be symmetric in the old and the new channel object
-    from ..absval import abstractor as _abs
+    from .. import sym
+    from .symutil import S, arg, elem_of, has, is_, mentions, sh, unobj
 
-    abm = _abs(E.flow(ccm))
-    for n in ast.walk(ccm.node):
-        if isinstance(n, ast.Call) and isinstance(n.func, ast.Attribute) and n.func.attr == "append" and isinstance(n.func.value, ast.Name) and n.func.value.id in lists and n.args and isinstance(n.args[0], ast.Constant):
-            # innermost `if` whose body holds this append
-            holder = None
-            for cand in ast.walk(ccm.node):
-                if isinstance(cand, ast.If) and any(x is n for b in cand.body for x in ast.walk(b)):
-                    if holder is None or any(x is cand for x in ast.walk(holder)):
-                        holder = cand
-            args_seen = set()
-            if holder is not None:
-                for c in ast.walk(holder.test):
-                    if isinstance(c, ast.Call):
-                        for a in c.args:
-                            if isinstance(a, ast.Name) and a.id.endswith("_ch_obj"):
-                                args_seen.add(a.id)
-                    if isinstance(c, ast.Attribute) and isinstance(c.value, ast.Name) and c.value.id.endswith("_ch_obj"):
-                        args_seen.add(c.value.id)
-            cond_on_channel = bool(args_seen)
-            if cond_on_channel:
-                rep.check({"old_ch_obj", "new_ch_obj"} <= args_seen, "TABLE", f"strict-compare|{n.args[0].value}|condition-symmetric", f"'{n.args[0].value}' is compared whenever the condition holds for the old OR the new channel",
-                          f"'{n.args[0].value}' is only compared under a condition on {sorted(args_seen)}: when the condition holds for the other device only, the parameter differs unnoticed and the timeline changes", E.where(ccm, n))
-    loop_lists = set()
-    for n in ast.walk(ccm.node):
-        if isinstance(n, ast.For) and isinstance(n.iter, ast.Name) and n.iter.id in lists:
-            # for p in L: if getattr(new, p) != getattr(old, p): return <strict error>
-            src = norm(n)
-            if "getattr" in src and "!=" in src:
-                loop_lists.add(n.iter.id)
-    for L in loop_lists:
-        compared |= set(lists[L])
+    compared: set[str] = set()
+    Sc = S(E, ccm)
+
+    def items_of(lst) -> list:
+        """[(condition, constant)] of a list built by a literal (with conditional splats) and/or appends."""
+        out = []
+        base = unobj(lst)
+        if base[0] in ("list", "tuple"):
+            for el in base[1:]:
+                if el[0] == "const":
+                    out.append((sym.TRUE, el[1]))
+                elif el[0] == "star":
+                    from .symutil import branches as _br
+
+                    for conds, leaf in _br(unobj(el[1])):
+                        leaf = unobj(leaf)
+                        if leaf[0] in ("list", "tuple"):
+                            out += [(sym.mk_and(conds), x[1]) for x in leaf[1:] if x[0] == "const"]
+        for l in Sc.calls("append"):
+            if l.target[1] == lst and arg(l, 0) is not None and arg(l, 0)[0] == "const":
+                out.append((l.cond, arg(l, 0)[1]))
+        return out
+
+    OLD, NEW = sym.Pattern("seq.declared_channels[old_ch_name]").term, ("name", "new_ch_obj")
+    both = {OLD, NEW}
+    n_loops = 0
+    for l in Sc.logged("test"):
+        m = is_(l.value, "getattr(Q_x, Q_p) != getattr(Q_y, Q_p)")
+        if m is None or not l.loops or not elem_of(m["Q_p"], l.loops[-1]) or {m["Q_x"], m["Q_y"]} != both:
+            continue
+        n_loops += 1
+        base_conds = set(sym.conj_of(l.cond))
+        for cond, name in items_of(l.loops[-1]):
+            compared.add(name)
+            extra = [x for x in sym.conj_of(cond) if x not in base_conds]
+            objs = {nm for x in extra for nm, t_ in (("old_ch_obj", OLD), ("new_ch_obj", NEW)) if sym.contains(x, t_)}
+            if objs:
+                # a conditionally compared parameter must be compared whenever it matters on EITHER device
+                rep.check(objs == {"old_ch_obj", "new_ch_obj"}, "TABLE", f"strict-compare|{name}|condition-symmetric", f"'{name}' is compared whenever the condition holds for the old OR the new channel",
+                          f"'{name}' is only compared under a condition on {sorted(objs)}: when the condition holds for the other device only, the parameter differs unnoticed and the timeline changes", E.where(ccm, l.node))
+    if not n_loops:
+        raise AnalysisError("anchor: the strict parameter comparison loop of check_channels_match was not found")
     # direct comparisons  new_ch_obj.X != old_ch_obj.X  (incl. eom_config.mod_bandwidth)
     eom_whole = False
-    for n in ast.walk(ccm.node):
-        if isinstance(n, ast.Compare) and len(n.ops) == 1 and isinstance(n.ops[0], (ast.NotEq, ast.Eq)):
-            l, r = norm(n.left), norm(n.comparators[0])
-            for side in (l, r):
-                if "eom_config" in side and side.endswith(".mod_bandwidth"):
-                    compared.add("eom_config.mod_bandwidth")
-            if "new_eom_config" in (l, r) and "old_eom_config" in (l, r):
+    for l in Sc.logged("test"):
+        for x in sym.subterms(l.value):
+            if x[0] != "cmp" or x[1] not in ("Eq", "NotEq"):
+                continue
+            m = is_(x, "Q_x.eom_config.mod_bandwidth != Q_y.eom_config.mod_bandwidth")
+            if m is not None and {m["Q_x"], m["Q_y"]} == both:
+                compared.add("eom_config.mod_bandwidth")
+            a, b = x[2], x[3]
+            if a[0] == "attr" and b[0] == "attr" and a[2] == b[2] and {a[1], b[1]} == both:
+                compared.add(a[2])
+            ua, ub = unobj(a), unobj(b)
+            ma, mb = is_(ua, "dataclasses.asdict(Q_x.eom_config)"), is_(ub, "dataclasses.asdict(Q_y.eom_config)")
+            if ma is not None and mb is not None and {ma["Q_x"], mb["Q_y"]} == both:
                 eom_whole = True
-            # old_ch_obj.X == new_ch_obj.X  (type / basis / addressing match)
-            for a, b in ((n.left, n.comparators[0]), (n.comparators[0], n.left)):
-                if isinstance(a, ast.Attribute) and isinstance(b, ast.Attribute) and a.attr == b.attr and norm(a.value) == "old_ch_obj" and norm(b.value) == "new_ch_obj":
-                    compared.add(a.attr)
     covered = set()
     for a in compared:
         if a.startswith("eom_config."):
@@ -252,6 +257,8 @@ def run(E: Engine, rep: Report, tier: str) -> dict:
             aec = n
     if aec is None:
         raise AnalysisError("anchor: active_eom_channels not found in switch_device")
+    from ..absval import abstractor as _abs
+
     va = _abs(E.flow(sw)).av(aec.value)
     from .common import strip_prefixes as _sp
 
@@ -271,11 +278,18 @@ def run(E: Engine, rep: Report, tier: str) -> dict:
                 if e.kind == "write" and any(E.is_state_region(o) for o, _f in e.places) and not all(fld in ("_variables",) for _o, fld in e.places):
                     direct.append(e.text)
         rep.check(not direct, "OWN", f"{label}|no-direct-schedule-write", "the new sequence is built only through the public API (replay of recorded calls); only `_variables` is copied", f"{label} writes sequence state directly: {direct}", E.where(f))
-        # the replay uses every recorded call
-        src = norm(f.node)
-        rep.check("_calls[1:] + " in src.replace("seq.", "self.").replace("self._calls[1:] + self._to_build_calls", "_calls[1:] + X") or "._calls[1:] + " in src, "OWN", f"{label}|replays-all-calls", "iterates over _calls[1:] + _to_build_calls", f"{label} no longer replays the whole call log", E.where(f))
-        has_replay = any(e.kind == "reflective" for g in [f] + list(f.nested.values()) for _n, _i, e in E.flow(g).all_events())
-        rep.check(has_replay, "OWN", f"{label}|uses-getattr-replay", "calls getattr(new_seq, call.name)(*args, **kwargs)", f"{label} no longer replays calls through the public methods", E.where(f))
+        # the replay goes through the public methods and uses every recorded call, in order
+        Sf = S(E, f)
+        reps_ = [l for l in Sf.log if l.kind == "call" and l.target is not None and l.target[0] == "call" and l.target[1] == ("name", "getattr") and l.loops]
+        ok_all = bool(reps_)
+        for l in reps_:
+            it = l.loops[-1]
+            m = is_(it, "Q_s._calls[1:]")
+            m2 = it if it[0] == "bin" and it[1] == "Concat" else None
+            ok_all = ok_all and m2 is not None and is_(m2[2], "Q_s._calls[1:]") is not None and is_(m2[3], "Q_s._to_build_calls", is_(m2[2], "Q_s._calls[1:]")) is not None
+            ok_all = ok_all and len(l.target[2]) == 2 and l.target[2][1] == ("attr", ("elem", it, len(l.loops) - 1), "name")
+        rep.check(ok_all, "OWN", f"{label}|replays-all-calls", "iterates over _calls[1:] + _to_build_calls, calling the method named by each stored call", f"{label} no longer replays the whole call log (regular calls, then the to-build calls) through the stored method names", E.where(f))
+        rep.check(bool(reps_), "OWN", f"{label}|uses-getattr-replay", "calls getattr(new_seq, call.name)(*args, **kwargs)", f"{label} no longer replays calls through the public methods", E.where(f))
     rep.floor("OWN", 6)
 
     # -------------------------------------------------------------- ARGS
